@@ -215,6 +215,11 @@ def obligations(r, tier, seed):
         vs[0].pose = a                      # replaced (what the optimizer does)
         vs[1].pose[:] = l.to_array()        # changed in place
         vs[2].pose[:] = b.to_array()
+        c = k.pos("scale")
+        e1.information = c * e1.information         # information re-weighted after the graph was built: replaced ...
+        e3.information[...] = c * e3.information    # ... and scaled in place
+        e1.estimate[:] = k.pose("SE2", "z1new").to_array()
+        e3.estimate = k.pose("R2", "z3new")
         want = 0
         for e in (e1, e3):
             want = want + quadform(e.calc_error(), e.information)
